@@ -213,12 +213,21 @@ def Error.wrap (tag : String) : Error → Error
   | .nil => .other tag
   | e => e
 
-/-- `errors.Is(e, target)` for the sentinel targets the subset knows (`io.EOF`, `io.ErrUnexpectedEOF`) -/
+/-- `errors.Is(e, target)` for sentinel targets: `io.EOF`, `io.ErrUnexpectedEOF`, and a package's own sentinel
+    (`var ErrX = …`, identified by its name) -/
 def Error.is (e target : Error) : Bool :=
   match target with
   | .eof => e == .eof
   | .unexpectedEOF => e == .unexpectedEOF
-  | _ => false
+  | .other t => e == .other t
+  | .nil => false
+
+/-- the tag under which an error VALUE travels once it is returned through the monad -/
+def Error.tag : Error → String
+  | .nil => "nil"
+  | .eof => "EOF"
+  | .unexpectedEOF => "unexpected EOF"
+  | .other t => t
 
 /-- an `io.ReaderAt`: `ReadAt(p, off)` with `len(p) = n` as a function `(n, off) ↦ (bytes read, err)`; the bytes read are
     the new front of `p`.  The io.ReaderAt contract (`n < len(p) ⇒ err ≠ nil`, at most `len(p)` bytes) is a hypothesis
@@ -234,5 +243,26 @@ def readByte (r : BytesReader) : M (BytesReader × UInt8) :=
   match r.data.drop r.pos with
   | [] => .error (.err "EOF")
   | b :: _ => pure ({ r with pos := r.pos + 1 }, b)
+
+/-- a call of a function whose Go error travels through the monad, made by a function that treats errors as data: the
+    error comes back as a value next to the zero results; panics and fuel exhaustion still propagate -/
+def catchErr {α : Type} (x : M α) (dflt : α) : M (α × Error) :=
+  match x with
+  | .ok v => pure (v, Error.nil)
+  | .error (.err t) => pure (dflt, Error.other t)
+  | .error e => throw e
+
+/-- `io.NewSectionReader(r, base, n)` as an `io.ReaderAt` (Go 1.23 `SectionReader.ReadAt`): offsets outside `[0, size)` answer
+    `(0, io.EOF)`; a read reaching past the section is cut to the section and answers `io.EOF` when the inner read succeeded -/
+def sectionReader (r : ReaderAt) (base n : Int) : ReaderAt := fun len off =>
+  let limit : Int := if base ≤ 9223372036854775807 - n then base + n else 9223372036854775807
+  if off < 0 ∨ off ≥ limit - base then ([], Error.eof)
+  else
+    let off' := off + base
+    let max := limit - off'
+    if len > max then
+      let t := r max off'
+      (t.1, if t.2 == Error.nil then Error.eof else t.2)
+    else r len off'
 
 end Go
